@@ -17,10 +17,10 @@ claimed = {
   text="Bounded symbolic execution of the real snippet.T / Sprintf / Comment / GoDirective / Snippets / Fragments (with the real text/scanner interpreted) against an independent reference renderer executed next to it: equality of panic behaviour and of output bytes for every ASCII format up to the bound (quick: 6 bytes; thorough: 8 bytes), with nil, literal, placeholder-looking and nested-template bindings.",
   note="Domain restrictions (bare @, nil interface arguments, non-Snippet Sprintf arguments, NUL/BOM/invalid UTF-8) are listed in the evidence under outside_bounds.", ref="DESIGN.md §3 C09"),
  "C12": dict(
-  text="(a) Tag half: bounded symbolic execution of the real ExtractCommentTags / splitKV / commentLinesFrom against a reference line classifier for every list of k lines x n ASCII bytes within the bound (every line classified exactly once, order kept, key/value split at the first '=' or space, repeated keys keep all values in order; go: lines skipped). (b) Attribution, partial: the real newPkg comment indexing and Doc/Comment run on a struct type with k <= 3 (thorough 4) fields, on const and type groups and on ungrouped variable declarations, in every combination of no doc / attached doc / detached comment and trailing / no trailing comment per field: Doc is exactly the group directly above, Comment exactly the trailing comment, and a previous line's trailing comment is never reported as documentation.",
+  text="(a) Tag half: bounded symbolic execution of the real ExtractCommentTags / splitKV / commentLinesFrom against a reference line classifier for every list of k lines x n ASCII bytes within the bound (every line classified exactly once, order kept, key/value split at the first '=' or space, repeated keys keep all values in order; go: lines skipped). (b) Attribution, partial: the real newPkg comment indexing and Doc/Comment run on a struct type with k <= 3 (thorough 4) fields, on const and type groups and on ungrouped variable declarations, in every combination of no doc / attached doc / detached comment and trailing / no trailing comment per field: Doc is exactly the group directly above, Comment exactly the trailing comment, and a previous line's trailing comment is never reported as documentation. (c) Both halves together: Doc/Comment on fields whose comment texts are arbitrary printable ASCII (multi-name fields included), and declarations 2^8 / 2^16 lines apart.",
   note="PARTIAL: under the engine the AST is harness-built following go/parser's comment-attachment rules (the parser itself cannot run symbolically); every sampled path is replayed natively on the really parsed source, which validates that construction. Layouts with import specs, block or multi-line comments, multi-name specs or several files are not exercised.", ref="DESIGN.md §3 C12"),
  "C14": dict(
-  text="Narrow: the recursion guard visits.visited, on which the termination claim rests, is checked as a lemma by bounded symbolic execution from every pre-state reachable by <= 3 (thorough 5) earlier guard calls with symbolic indexes: a (function, result) pair asked about is cut the next time, a fresh pair is not.",
+  text="Narrow: the recursion guard visits.visited, on which the termination claim rests, is checked as a lemma by bounded symbolic execution from every pre-state reachable by <= 3 (thorough 5) earlier guard calls with symbolic indexes: a (function, result) pair asked about is cut the next time, a fresh pair is not. Functions with 9, 17 and 33 results (thorough 65) are covered as well.",
   note="PARTIAL: everything in C14 that analyses go/ast + go/types of real programs (soundness of alternatives, literal returns, closures, determinism) is outside; boundedness of the recursion given a marking guard is a paper argument.", ref="DESIGN.md §3 C14"),
 }
 claimed["C03"] = dict(
